@@ -73,78 +73,92 @@ do_case(const struct rc_day *p, int H, int s, int replay)
 	return 0;
 }
 
-/* binding: tool TOOL prints all days of [y0, y1] with format FMT; must equal dconv's output on those days */
+/* binding: a tool prints all days of [y0, y1] with a multi-specifier format; its output must be
+ * byte-identical to what the library-level exploration observes for the representation the
+ * tool is taken to hold the value in (dseq: day count; dadd/dround: the input's calendar).
+ * Formatting defects therefore show up once, at library level, and the binding only fails
+ * if the tool hands something else to the formatter than assumed. */
 static const char BINDFMT[] = "%F %Y %m %d %j %a %b %u %c %C %G %V %U %W %q %Q %Od %Om %OY %dth";
+static const struct {
+	const char *what;
+	int held;
+	const char *calfmt;	/* dconv -f <calfmt> produces the tool's input */
+	const char *tool;
+} c02binds[] = {
+	{"dseq A 1d B (day steps: held as day count)", H_DAISY, NULL, NULL},
+	{"dadd +0d on ywd input", H_YWD, "ywd", "dadd +0d"},
+	{"dadd +0d on yd input", H_YD, "yd", "dadd +0d"},
+	{"dadd +0d on ymcw input", H_YMCW, "ymcw", "dadd +0d"},
+	{"dround /1d on ymcw input", H_YMCW, "ymcw", "dround /1d"},
+	{"dround /1d on ywd input", H_YWD, "ywd", "dround /1d"},
+};
+#define C02_NBIND	((int)(sizeof(c02binds) / sizeof(*c02binds)))
+
 static void
 do_binding(int k)
 {
-	static const char *const what[] = {"dseq (day steps, held as day count)", "dadd +0d on ywd input", "dadd +1d -1d on yd input", "dround to same day on ymcw input"};
-	char ref[512], out[512], in[512], cmd[2048], refcmd[2048], key[128], l1[512], l2[512], cas[48];
+	char out[512], in[512], cmd[2048], key[160], l2[512], exp[512], cas[48], text[64];
 	const char *rundir = getenv("VERIF_RUNDIR");
 	int y0 = ex.thorough ? 1601 : 1990, y1 = ex.thorough ? 4093 : 2030;
 	FILE *f, *g;
-	int n = 0;
+	int n = 0, rd;
 	EX_CTR(c_bind, "cli_binding_replays");
 	EX_CTR(c_bindln, "cli_binding_lines");
 
 	if (rundir == NULL || ex.tree == NULL) {
 		return;
 	}
-	snprintf(ref, sizeof(ref), "%s/c02bind.%d.ref", rundir, k);
 	snprintf(out, sizeof(out), "%s/c02bind.%d.out", rundir, k);
 	snprintf(in, sizeof(in), "%s/c02bind.%d.in", rundir, k);
-	/* input days as ymd text */
 	if ((f = fopen(in, "w")) == NULL) {
 		return;
 	}
-	for (int rd = rc_yearstart[y0]; rd < rc_yearstart[y1 + 1]; rd++) {
+	for (rd = rc_yearstart[y0]; rd < rc_yearstart[y1 + 1]; rd++) {
 		const struct rc_day *p = rc_get(rd);
 		fprintf(f, "%04d-%02d-%02d\n", p->y, p->m, p->d);
 	}
 	fclose(f);
-	snprintf(refcmd, sizeof(refcmd), "'%s/src/dconv' -f '%s' < '%s' > '%s' 2>/dev/null", ex.tree, BINDFMT, in, ref);
-	switch (k) {
-	case 0:
+	if (c02binds[k].tool == NULL) {
 		snprintf(cmd, sizeof(cmd), "'%s/src/dseq' %04d-01-01 1d %04d-12-31 -f '%s' > '%s' 2>/dev/null", ex.tree, y0, y1, BINDFMT, out);
-		break;
-	case 1:
-		snprintf(cmd, sizeof(cmd), "'%s/src/dconv' -f ywd < '%s' | '%s/src/dadd' +0d -f '%s' > '%s' 2>/dev/null", ex.tree, in, ex.tree, BINDFMT, out);
-		break;
-	case 2:
-		snprintf(cmd, sizeof(cmd), "'%s/src/dconv' -f yd < '%s' | '%s/src/dadd' -i yd +1d -f yd | '%s/src/dadd' -i yd -- -1d -f '%s' > '%s' 2>/dev/null",
-			 ex.tree, in, ex.tree, ex.tree, BINDFMT, out);
-		break;
-	default:
-		snprintf(cmd, sizeof(cmd), "'%s/src/dconv' -f ymcw < '%s' | '%s/src/dround' /1d -f '%s' > '%s' 2>/dev/null", ex.tree, in, ex.tree, BINDFMT, out);
-		break;
+	} else {
+		snprintf(cmd, sizeof(cmd), "'%s/src/dconv' -f %s < '%s' | '%s/src/'%s -f '%s' > '%s' 2>/dev/null",
+			 ex.tree, c02binds[k].calfmt, in, ex.tree, c02binds[k].tool, BINDFMT, out);
 	}
-	if (system(refcmd) < 0 || system(cmd) < 0) {
+	if (system(cmd) < 0) {
 		return;
 	}
 	++*c_bind;
-	snprintf(key, sizeof(key), "binding %s vs dconv", what[k]);
-	f = fopen(ref, "r");
-	g = fopen(out, "r");
-	if (f && g) {
-		int rd = rc_yearstart[y0];
-		while (fgets(l1, sizeof(l1), f)) {
+	snprintf(key, sizeof(key), "binding %s vs library-level observation", c02binds[k].what);
+	if ((g = fopen(out, "r")) != NULL) {
+		for (rd = rc_yearstart[y0]; rd < rc_yearstart[y1 + 1]; rd++) {
+			const struct rc_day *p = rc_get(rd);
+			struct dt_dt_s v;
 			if (!fgets(l2, sizeof(l2), g)) {
 				ex_viol(key, rd, "", cmd, "tool output ends after %d lines", n);
 				break;
 			}
 			n++;
 			++*c_bindln;
-			if (strcmp(l1, l2)) {
-				l1[strcspn(l1, "\n")] = l2[strcspn(l2, "\n")] = '\0';
-				snprintf(cas, sizeof(cas), "bind %d %d", k, rd);
-				ex_viol(key, rd, cas, cmd, "line %d: tool prints '%s', dconv prints '%s'", n, l2, l1);
+			l2[strcspn(l2, "\n")] = '\0';
+			/* the value as the tool holds it */
+			if (c02binds[k].tool == NULL) {
+				held_value(H_DAISY, p, &v);
+			} else {
+				struct dt_dt_s y = ymd_value(p);
+				memset(text, 0, sizeof(text));
+				dt_strfdt(text, sizeof(text), c02binds[k].calfmt, y);
+				v = dt_strpdt(text, NULL, NULL);
 			}
-			rd++;
+			memset(exp, 0, sizeof(exp));
+			dt_strfdt(exp, sizeof(exp), BINDFMT, v);
+			if (strcmp(exp, l2)) {
+				snprintf(cas, sizeof(cas), "bind %d %d", k, rd);
+				ex_viol(key, rd, cas, cmd, "line %d (day %04d-%02d-%02d): tool prints '%s', library level observed '%s' for the %s-held value",
+					n, p->y, p->m, p->d, l2, exp, held_name[c02binds[k].held]);
+			}
 		}
+		fclose(g);
 	}
-	if (f) fclose(f);
-	if (g) fclose(g);
-	unlink(ref);
 	unlink(out);
 	unlink(in);
 }
@@ -174,7 +188,7 @@ main(int argc, char *argv[])
 		"ymd-held value's. Skipped: weekend days under bizda and %%db/%%dB, days outside the Hijri table, non-weekday specifiers on "
 		"Hijri-held values. non-trivial = days whose ISO year differs from the Gregorian year, first/last day of a month", C02_NSPEC);
 	ex_meta("bound", "%s", ex.thorough ? "all 911,280 days" : "days of 1601-2000 (one full Gregorian cycle) and 4090-4095 and the Hijri table range");
-	ex_meta("binding", "dseq/dadd/dround binaries print whole day ranges (%s) with a 20-specifier format and are byte-compared with dconv on the same days",
+	ex_meta("binding", "dseq/dadd/dround binaries print whole day ranges (%s) with a 20-specifier format; byte-compared with the library-level text for the representation the tool holds (dseq: day count; dadd/dround: the input calendar)",
 		ex.thorough ? "1601..4093" : "1990..2030");
 
 	for (int y = RC_MIN_YEAR; y <= RC_MAX_YEAR && !ex_expired(); y++) {
@@ -202,7 +216,7 @@ main(int argc, char *argv[])
 		}
 		++*c_traces;
 	}
-	for (int k = 0; k < 4 && !ex_expired(); k++) {
+	for (int k = 0; k < C02_NBIND && !ex_expired(); k++) {
 		if (ex_mine((uint64_t)k + 7)) {
 			do_binding(k);
 		}
